@@ -271,6 +271,17 @@ Proof. exact dispatch_state. Qed.
 Print Assumptions c13_dispatch_state.
 
 (* ---- round 2: the fan-out and the known finding C13-fanout-mixed-nack ---- *)
+(* a long-lived dispatcher over any sequence of requests (a request issued from a completion callback is
+   the next request of the sequence: every fan-out owns its tracker): every one completes exactly once *)
+Theorem c13_fanout_run :
+  forall (State : Type) (devs : list (N * device State)) h,
+    (forall k d, In (k, d) devs -> forall q st, exists r, fst (d q st) = [r]) ->
+    len devs < 65536 ->
+    forall st, exists outs st', sub_run State devs h st = Some (outs, st') /\
+                                length outs = length h /\ Forall (fun o => exists r, o = [r]) outs.
+Proof. exact sub_run_once. Qed.
+Print Assumptions c13_fanout_run.
+
 (* a SET fanned out to all sub-devices reports the FIRST sub-device's reply and leaves the state that
    all sub-devices, each run once in map order, produce *)
 Theorem c13_fanout_state :
